@@ -277,7 +277,7 @@ type session struct {
 	ev     []traceEv
 
 	timeouts, skipped int
-	late              int // predictions of the generator that did not come true in time
+	late              int      // predictions of the generator that did not come true in time
 	item              int      // index of the schedule item being executed
 	lost              []string // items that were not executed as scheduled
 	stalled           []string
